@@ -46,6 +46,30 @@ CLAIMED = {
         "text": "C10_iter_shape / C10_live_contained / C10_slices_disjoint. " + ARENA_TEXT + "Partial: the 'no other bytes' clause for uniform allocations is decided on the implementation only (sp_iter_ok + exact chunk lists compared with the model).",
         "design_ref": "DESIGN.md §6 C10",
     },
+    "C13": {
+        "engine": "vec",
+        "technique": "Coq proof (refinement of a bitwise buffer model of Vec/RawVec to list semantics) + differential execution against std::vec::Vec and against the extracted model",
+        "text": "C13_push/pop/insert/remove/swap_remove/truncate/cap_ge_len/reserve_post/drain_filter_partition are proved for all arguments (out-of-range included) of the Vec model; every generated program (26 operation kinds, boundary indices, all range forms, scripted callbacks, neighbours and canaries in the same arena) is run on bumpalo's Vec, on std's Vec (the oracle the property names) and through the extracted model, debug and release. Partial: drain/splice/dedup/resize/extend/split_off/clone/into_iter/conversions and zero-sized element types are decided by the differential only.",
+        "design_ref": "DESIGN.md §6 C13",
+    },
+    "C15": {
+        "engine": "vec",
+        "technique": "Coq proof (drop logs of the Vec model; permutation-based conservation for drain_filter) + drop-ledger differential against std",
+        "text": "C15_truncate_drops / C15_drain_filter_conserves / C15_remove_moves_out / C15_drop_vec; elements with observable destructors and per-operation drop logs are compared with std's and with the model's, plus an exact final-drop check. Partial: Box and conversions are covered by the drivers only.",
+        "design_ref": "DESIGN.md §6 C15",
+    },
+    "C16": {
+        "engine": "vec",
+        "technique": "Coq proof (loop invariant of DrainFilter::next + permutation conservation under arbitrary panic positions; truncate with panicking destructors) + drop-ledger driver enumerating panic points",
+        "text": "C16_drain_filter_no_double_drop / C16_drain_filter_nodup / C16_truncate_panicking_drop hold for every answer script (a panic at any predicate invocation, any number of items taken by the caller). The driver panics predicates, Clone, Drop and iterators at random invocation indices and checks: no identity twice, nothing dropped reachable, exact final drop. Partial: dedup_by/resize/extend/String::retain/Box are decided on the implementation only.",
+        "design_ref": "DESIGN.md §6 C16",
+    },
+    "C19": {
+        "engine": "vec",
+        "technique": "Coq proof (RawVec capacity arithmetic with explicit usize operations) + boundary grid against std and the model",
+        "text": "C19_reserve_covers / C19_reserve_refuses / C19_with_capacity; a grid of 576 (entry point, element size, count, starting length) cases on both sides of usize::MAX, usize::MAX/size, isize::MAX/size is run against std (where std does not abort) and the model, plus boundary scenarios (slices of zero-sized elements summing past usize::MAX, String reserve/with_capacity). Arena-side size checks are covered by C09's no-panic theorem and layout_ok in the arena model.",
+        "design_ref": "DESIGN.md §6 C19",
+    },
     "C18": {
         "technique": "Coq proof (capacity lemmas by induction over request lists; doubling of the first candidate of the sizing policy) + correspondence of request sizes",
         "text": "C18_capacity_honoured / C18_capacity_exact / C18_with_capacity_size / C18_growth_doubles. " + ARENA_TEXT + "Partial: the logarithmic bound on request counts, the constant-factor bound on held memory and the Vec/String reservation clauses are not yet theorems.",
@@ -102,6 +126,9 @@ def main():
             "add_only": True,
         },
         "engines": [
+            {"name": "vec", "path": "coq/Vec*.v + harness/src/bin/vec_driver.rs + ocaml/vec_check.ml",
+             "serves_properties": ["C13", "C15", "C16", "C19"],
+             "kind_free_text": "Coq model of Vec/RawVec with refinement theorems; differential execution against std::vec::Vec and the extracted model; drop ledger"},
             {"name": "arena", "path": "coq/Arena*.v + harness/src/bin/arena_driver.rs + ocaml/arena_check.ml",
              "serves_properties": ["C01", "C02", "C03", "C04", "C06", "C07", "C08", "C09", "C10", "C11", "C12", "C18", "C20"],
              "kind_free_text": "Coq model of Bump with theorems; differential execution of the extracted model against the real crate; extracted spec predicates evaluated on the implementation's observations"},
